@@ -122,6 +122,9 @@ func (f *MapField) GenReadFrom() (string, error) {
 			{
 				value := &pseudoValue
 				{{.M.KeyField.GenReadFrom}}
+				if err != nil {
+					return nil, enc.ErrFailToParse{TypeNum: {{.M.KeyField.TypeNum}}, Err: err}
+				}
 				typ := enc.TLNum(0)
 				l := enc.TLNum(0)
 				{{call .GenTlvNumberDecode "typ"}}
